@@ -2,7 +2,6 @@ package limiter
 
 import (
 	"fmt"
-	"sort"
 	"strconv"
 )
 
@@ -38,16 +37,17 @@ type kstate struct {
 }
 
 type judgement struct {
-	Findings   []finding
-	Admitted   int
-	Rejected   int
-	Debatable  int // admissions in the zone the documentation leaves open
-	Refunds    int
-	Ambiguous  int // keys dropped because two disagreements explain one observation equally
-	Judged     int
-	Outcome    string // one letter per request, for distinctness
-	GapSeen    bool
-	RolledSeen bool
+	Findings    []finding
+	Admitted    int
+	Rejected    int
+	Debatable   int // admissions in the zone the documentation leaves open
+	Refunds     int
+	Ambiguous   int // keys dropped because two disagreements explain one observation equally
+	Judged      int
+	HeaderDiffs int    // X-RateLimit-* values that differ from the specification (counted, not judged)
+	Outcome     string // one letter per request, for distinctness
+	GapSeen     bool
+	RolledSeen  bool
 }
 
 func (j *judgement) sigs() map[string]bool {
@@ -58,29 +58,19 @@ func (j *judgement) sigs() map[string]bool {
 	return m
 }
 
-// Two disagreements with the documentation are pervasive enough that a history has to settle
-// them before anything else can be attributed. Each is settled by the first request that
-// exhibits it in isolation (no refund before it on the key, no idle window); until then a
-// request that could be explained by it AND by something else makes its key unjudgeable.
-const (
-	unknown = iota
-	asDocumented
-	otherwise // limit: cfg.Max is used instead of MaxFunc(c); error: status at handler return is used
-)
-
 // judge is a deterministic function of the recorded events (configuration, requests sent,
 // observations with their coarse timestamps). It never looks at the middleware.
+//
+// Verdicts are limited to what the statement of C13 says: handler executions per key never
+// exceed what the algorithm permits with the limit MaxFunc(c) of that request
+// (over-admit), no rejection while budget remains (reject-with-budget), rejected requests
+// answer 429 with Retry-After = time until the window resets. The X-RateLimit-* headers are
+// not part of the statement: disagreements there are counted (HeaderDiffs), not judged.
 func judge(cfg tcfg, steps []tstep, obs []tobs) *judgement {
 	a := algoCfg{sliding: cfg.Sliding, E: uint64(cfg.E)}
 	j := &judgement{}
 	keys := map[int]*kstate{}
-	limitMode, errMode := unknown, unknown
 	out := make([]byte, 0, len(steps))
-	skipOpt := "skip-failed"
-	if cfg.SkipOK {
-		skipOpt = "skip-successful"
-	}
-	b2i := map[bool]int{true: 1}
 
 	sig := func(clause, class string) string {
 		if class == "" {
@@ -110,36 +100,20 @@ func judge(cfg tcfg, steps []tstep, obs []tobs) *judgement {
 			out = append(out, 'x')
 			continue
 		}
-		drop := func() {
-			ks.dead = true
-			j.Ambiguous++
-			out = append(out, '?')
-		}
 		maxReq := cfg.Max
 		if cfg.Dyn && st.Max > 0 {
 			maxReq = st.Max
 		}
-		useMax := maxReq
-		if limitMode == otherwise {
-			useMax = cfg.Max
-		}
-		limitOpen := limitMode == unknown && maxReq != cfg.Max
 		hadState := ks.w.s[0].exp != 0
 		oldExp := ks.w.s[0].exp
 		x := ks.w.hit(a, o.T)
 		v := x.v[0] // the coarse view, for messages and input classes
-		var xDoc dverdict
-		if ks.doc != nil {
-			xDoc = ks.doc.hit(a, o.T)
-		}
 		entered := o.Entered > 0
-		final, atReturn := modeStatus(st.Mode)
+		final, _ := modeStatus(st.Mode)
 
 		// class names the input class of a disagreement at this request
 		class := ""
 		switch {
-		case ks.div != nil:
-			class = ks.divClass // an earlier header divergence on this key names the root cause
 		case ks.hadLate:
 			class = "after-late-refund"
 		case ks.hadRefund:
@@ -147,47 +121,24 @@ func judge(cfg tcfg, steps []tstep, obs []tobs) *judgement {
 		case v.gap || ks.hadGap:
 			class = "idle-window"
 		}
+		if maxReq != cfg.Max {
+			if class == "" {
+				class = cfg.backend()
+			}
+			class += "|limit-from-MaxFunc"
+		}
 		if v.gap {
 			ks.hadGap = true
 		}
-		clean := class == ""
 		hint := ""
 		if ks.lastLate {
 			hint = " [the previous request on this key was refunded after the window of its hit had ended]"
 		}
-		trunc, real := x.admits(useMax)
-		got, gotErr := strconv.Atoi(o.Remaining)
+		trunc, real := x.admits(maxReq)
 
-		// ---- which status do the skip options look at?
 		// Documented: "requests with StatusCode >= 400 (< 400) won't be counted" — the status
 		// code of a request is the one the client receives.
-		refundDoc := entered && qual(o.Status)
-		refundImpl := refundDoc
-		errDivergent := false
-		if entered && final != atReturn && qual(final) != qual(atReturn) && o.Status == final {
-			if errMode == unknown {
-				// X-RateLimit-Remaining of this very response tells (it is the budget left after
-				// the refund, if any)
-				d := gotErr == nil && x.remainingOK(got, useMax, refundDoc)
-				m := gotErr == nil && x.remainingOK(got, useMax, !refundDoc)
-				switch {
-				case !clean || limitOpen || !trunc || !x.exact() || d == m:
-					drop()
-					continue
-				case d:
-					errMode = asDocumented
-				default:
-					errMode = otherwise
-					add(i, "headers|remaining|"+skipOpt+"|handler-returned-error",
-						fmt.Sprintf("handler returned an error, the client received status %d, yet X-RateLimit-Remaining=%d (limit %d, rate %d) shows the request was %s (documented: status %s 400 is not counted)",
-							o.Status, got, useMax, v.rate, map[bool]string{true: "counted", false: "not counted"}[refundDoc], map[bool]string{true: ">=", false: "<"}[cfg.SkipFailed]))
-				}
-			}
-			if errMode == otherwise {
-				refundImpl = !refundDoc
-				errDivergent = true
-			}
-		}
+		refund := entered && qual(o.Status)
 
 		j.Judged++
 		if v.gap {
@@ -205,97 +156,32 @@ func judge(cfg tcfg, steps []tstep, obs []tobs) *judgement {
 
 		// ---- admission
 		violated := false
-		// limitSettles: the decision disagrees with MaxFunc(c) and agrees with cfg.Max
-		limitSettles := false
-		if limitOpen {
-			altTrunc, altReal := x.admits(cfg.Max)
-			limitSettles = (entered && !trunc && altTrunc) || (!entered && real && !altReal)
-		}
 		switch {
-		case limitSettles && !clean:
-			drop()
-			continue
-		case limitSettles:
-			add(i, "limit-not-from-MaxFunc|"+cfg.algo()+"|admission",
-				fmt.Sprintf("%s although the rate is %d and MaxFunc(c)=%d; the decision matches cfg.Max=%d",
-					map[bool]string{true: "admitted", false: "rejected"}[entered], v.rate, maxReq, cfg.Max))
-			limitMode, limitOpen = otherwise, false
-			useMax = cfg.Max
-			trunc, real = x.admits(useMax)
-		case entered && !trunc && !x.weakAdmits(useMax):
+		case entered && !trunc && !x.weakAdmits(maxReq):
 			add(i, sig("over-admit", class),
-				fmt.Sprintf("protected handler entered although the window is full: rate %d (hits prev=%d curr=%d, resets in %ds) > limit %d; counting only admitted requests the rate is still %d%s",
-					v.rate, ks.w.s[0].prev, ks.w.s[0].curr, v.resetIn, useMax, v.weakRate, hint))
+				fmt.Sprintf("protected handler entered although the window is full: rate %d (hits prev=%d curr=%d, resets in %ds) > limit MaxFunc(c)=%d (cfg.Max=%d); counting only admitted requests the rate is still %d%s",
+					v.rate, ks.w.s[0].prev, ks.w.s[0].curr, v.resetIn, maxReq, cfg.Max, v.weakRate, hint))
 			violated = true
 		case entered && !trunc:
 			j.Debatable++
 		case !entered && real:
 			add(i, sig("reject-with-budget", class),
-				fmt.Sprintf("rejected (status %d) although budget remains: rate %d (hits prev=%d curr=%d, resets in %ds) <= limit %d",
-					o.Status, v.rate, ks.w.s[0].prev, ks.w.s[0].curr, v.resetIn, useMax))
+				fmt.Sprintf("rejected (status %d) although budget remains: rate %d (hits prev=%d curr=%d, resets in %ds) <= limit MaxFunc(c)=%d (cfg.Max=%d)%s",
+					o.Status, v.rate, ks.w.s[0].prev, ks.w.s[0].curr, v.resetIn, maxReq, cfg.Max, hint))
 			violated = true
-		}
-		// the same decision against the documented counting of returned errors; only reached when
-		// the state that follows the implementation has nothing to object
-		if ks.doc != nil && !violated {
-			dTrunc, dReal := xDoc.admits(useMax)
-			vDoc := xDoc.v[0]
-			switch {
-			case entered && trunc && !dTrunc && !xDoc.weakAdmits(useMax):
-				add(i, "over-admit|"+skipOpt+"|handler-returned-error",
-					fmt.Sprintf("protected handler entered although the window is full when requests answered with an error status are counted as documented: rate %d (hits prev=%d curr=%d) > limit %d; the middleware's count is %d",
-						vDoc.rate, ks.doc.s[0].prev, ks.doc.s[0].curr, useMax, v.rate))
-				ks.doc = nil
-			case !entered && !real && dReal:
-				add(i, "reject-with-budget|"+skipOpt+"|handler-returned-error",
-					fmt.Sprintf("rejected (status %d) although budget remains when requests answered with an error status are not counted as documented: rate %d (hits prev=%d curr=%d) <= limit %d; the middleware's count is %d",
-						o.Status, vDoc.rate, ks.doc.s[0].prev, ks.doc.s[0].curr, useMax, v.rate))
-				ks.doc = nil
-			}
 		}
 
 		if entered {
 			ks.w.admitted()
-			if ks.doc != nil {
-				ks.doc.admitted()
-			}
-			// ---- limit header
+			// headers are informational: counted only
 			if o.Limit != strconv.Itoa(maxReq) {
-				add(i, "limit-not-from-MaxFunc|"+cfg.algo()+"|limit-header",
-					fmt.Sprintf("X-RateLimit-Limit=%q, MaxFunc(c)=%d", o.Limit, maxReq))
+				j.HeaderDiffs++
 			}
-			// ---- remaining / reset headers: only when nothing else is in doubt for this request
-			// (a refund the specification no longer applies because the window is over leaves
-			// the meaning of "remaining" open: not judged)
-			lateRefund := refundImpl && x.late(a, &ks.w, o.TEnd)
-			if !violated && trunc && !lateRefund {
-				want := func(limit int) int { return limit - v.rate + b2i[refundImpl] }
-				matches := func(limit int) bool { return gotErr == nil && x.remainingOK(got, limit, refundImpl) }
-				switch {
-				case matches(useMax):
-					if limitOpen && clean && !matches(cfg.Max) {
-						limitMode = asDocumented
-					}
-				case ks.div != nil:
-				case limitOpen && matches(cfg.Max) && !clean:
-					drop()
-					continue
-				case limitOpen && matches(cfg.Max):
-					add(i, "limit-not-from-MaxFunc|"+cfg.algo()+"|remaining-header",
-						fmt.Sprintf("X-RateLimit-Remaining=%d = cfg.Max(%d) - rate(%d)%s; with MaxFunc(c)=%d it must be %d", got, cfg.Max, v.rate,
-							map[bool]string{true: " + 1 refunded"}[refundImpl], maxReq, want(useMax)))
-					limitMode = otherwise
-				default:
-					ks.div = &finding{Sig: sig("headers|remaining", class), Step: i,
-						What: fmt.Sprintf("step %d: X-RateLimit-Remaining=%q, specification: limit %d - rate %d (hits prev=%d curr=%d, resets in %ds)%s = %d%s",
-							i, o.Remaining, useMax, v.rate, ks.w.s[0].prev, ks.w.s[0].curr, v.resetIn, map[bool]string{true: " + 1 refunded"}[refundImpl], want(useMax), hint)}
-					ks.divClass = class
-				}
-				if !x.resetOK(o.Reset) && ks.div == nil {
-					ks.div = &finding{Sig: sig("headers|reset", class), Step: i,
-						What: fmt.Sprintf("step %d: X-RateLimit-Reset=%q, the window resets in %d s", i, o.Reset, v.resetIn)}
-					ks.divClass = class
-				}
+			if got, err := strconv.Atoi(o.Remaining); err != nil || !x.remainingOK(got, maxReq, refund) {
+				j.HeaderDiffs++
+			}
+			if !x.resetOK(o.Reset) {
+				j.HeaderDiffs++
 			}
 			j.Admitted++
 			out = append(out, 'A')
@@ -314,15 +200,7 @@ func judge(cfg tcfg, steps []tstep, obs []tobs) *judgement {
 
 		// ---- refund
 		ks.lastLate = false
-		if errDivergent && ks.doc == nil && !violated {
-			cp := ks.w
-			ks.doc = &cp
-			xDoc = x
-		}
-		if ks.doc != nil && refundDoc {
-			ks.doc.refund(a, o.TEnd, xDoc)
-		}
-		if refundImpl {
+		if refund {
 			j.Refunds++
 			if !ks.w.refund(a, o.TEnd, x) {
 				ks.lastLate, ks.hadLate = true, true
@@ -331,18 +209,6 @@ func judge(cfg tcfg, steps []tstep, obs []tobs) *judgement {
 		}
 		if violated {
 			ks.dead, ks.violated = true, true
-		}
-	}
-	// header divergences that never turned into an admission-level violation
-	var ids []int
-	for k := range keys {
-		ids = append(ids, k)
-	}
-	sort.Ints(ids)
-	for _, k := range ids {
-		ks := keys[k]
-		if ks.div != nil && !ks.violated {
-			j.Findings = append(j.Findings, *ks.div)
 		}
 	}
 	j.Outcome = string(out)
